@@ -22,7 +22,11 @@ RULE = ("input = constructed lines (filler bytes that cannot start or continue a
         "exactly its tokens replaced by the reference result, everything else unchanged, same "
         "number and order of lines. The `small` flavour (hook: 16 lines x 64 bytes window, 32-byte "
         "reads) carries the schedule search; the `prod` flavour runs the real-scale cases (> 16384 "
-        "lines, > 16 MiB, 64 KiB lines). Non-trivial: a piece boundary inside a line and an input "
+        "lines, > 16 MiB, 64 KiB lines). Sub-check context: lines of canonical dates, date-times and times "
+        "(the default output of dconv) each wrapped in hostile context - followed by . , ; : ) x, an "
+        "unfinished time (' 12:xx', 'T12:', ' 12:99', ' 24:00:01'), preceded by brackets / letters - and "
+        "near-miss junk (12:, 99:99, 2020-x1-02, v1.2.3 ...); oracle: dconv -S without a format is the "
+        "identity on such text. Non-trivial: a piece boundary inside a line and an input "
         "larger than one window fill")
 ASSUMPTIONS = ["NUL bytes are not generated (lines are C strings by design)",
                "CR of CRLF endings may be dropped and the last line gets a newline: asserted on content only",
@@ -44,6 +48,7 @@ TOOLS = {
 def plan(ctx):
     j = [("schedules", {"shard": i, "nshards": 14}) for i in range(14)]
     j += [("realscale", {"shard": i, "nshards": 2}) for i in range(2)]
+    j += [("context", {"shard": i, "nshards": 4}) for i in range(4)]
     return j
 
 
@@ -326,7 +331,93 @@ def realscale(ctx, shard, nshards):
     return sub
 
 
+# --- tokens in hostile context: what follows / precedes a date or time must survive ----------
+# after a canonical date
+AFTER_D = [".", ",", ";", ":", ")", "]", "x", " x", ". ", ".. ", ":x", "/", "'", "\"", "!", "?", " 12:xx", " 12:", " 1x", " 7", "T12:xx",
+           "Tx", "T", " :30", " 99:99", " 12:99", " 77:77:77", "T99:99:99", " -", " +", "=", "\t12:", "\tx", " 12 ", " 2:"]
+# after a canonical time or date-time (not + - Z: a zone may follow a date-time)
+AFTER_T = [".", ",", ";", ":", ")", "]", "x", " x", ". ", ".x", ". Next", ":x", ": ", ":", "/", "!", "?", "'", " 12:xx", " .5", "..", ".,", "=", ".\t"]
+BEFORE = [" ", "(", "[", "x", "=", ",", ";", "/", "'", "\t", ">", "at ", "on: ", "", "#"]
+JUNK = ["12:", "12:xx", ":30", "1x", "x1", "a-b", "--", "::", "..", "12:x0", "1-", "-1", "T", "W", "b", "B", "20x0-01-02", "2020-x1-02",
+        "99:99", "99:99:99", "12:60", "1e5", "0x10", "v1.2.3", "3.14", "10%", "$5", "#42", "a1b2", "@x", "@", "+x", "p. 12",
+        "12.30", "12h30", "2020/01/02x", "Jan", "Mon", "Monday,", "Q1", "1st", "2nd", "w/e", "0:", ":0", "7:"]
+# every atom above was chosen so that no suffix of it that starts with a digit is itself a valid
+# time or date (the finder tries every position): 99:00 contains 9:00, 24:00:01 contains 4:00:01
+
+
+def gen_ctx_line(rnd, B):
+    """a line of canonical tokens in hostile context; dconv -S (default output) must reproduce it"""
+    parts = []
+    shown = []
+    for _ in range(rnd.randrange(1, 5)):
+        r = rnd.random()
+        if r < 0.3:
+            parts.append(rnd.choice(JUNK) + rnd.choice((" ", " ", ", ", "; ", "\t")))
+            continue
+        n = rnd.choice(B) if rnd.random() < 0.5 else rnd.randrange(R.NMIN + 10, 910675 - 10)
+        n = max(R.NMIN + 10, min(910675 - 10, n))
+        sec = rnd.choice((0, 1, 59, 3599, 3600, 43200, 86399, rnd.randrange(86400)))
+        kind = rnd.choice(("d", "d", "dt", "t"))
+        tok = {"d": R.f_ymd(n), "dt": R.f_ymd(n) + "T" + R.hms(sec), "t": R.hms(sec)}[kind]
+        after = rnd.choice(AFTER_D if kind == "d" else AFTER_T)
+        before = rnd.choice(BEFORE)
+        trail = rnd.choice((" ", " ", "", " "))
+        if after[-1:] in ".:+-" or after[-1:].isdigit():
+            trail = " "         # '.' + digits would be a fraction, ':' + digits more of the time
+        parts.append(before + tok + after + trail)
+        shown.append((kind, before, after))
+    return "".join(parts), shown
+
+
+def context(ctx, shard, nshards):
+    sub = Sub("c18.context")
+    V = Viol(sub, "C18")
+    rnd = random.Random(ctx.sub_seed("c18ctx", shard))
+    B = boundary()
+    env = tools.base_env(ctx.build, "small")
+    for it in range(25 if not ctx.thorough else 600):
+        lines = []
+        for _ in range(rnd.choice((1, 5, 40, 120))):
+            lines.append(gen_ctx_line(rnd, B))
+        data = "".join(l + "\n" for l, _ in lines).encode("latin-1")
+        r = tools.run([ctx.build.tool("dconv", "small"), "-S"], stdin=data, env=env, timeout=30, cap=1 << 24)
+        got = r.out.split(b"\n")
+        exp = data.split(b"\n")
+        sub.evaluations += len(lines)
+        for l, shown in lines:
+            for k in shown:
+                sub.nt(k)
+        if r.crashed or r.timed_out:
+            V.add("context:crash", {"data": data.decode("latin-1"), "kind": "ctx"}, expected="clean exit", actual=r.brief(), weight=len(data))
+            continue
+        if got != exp:
+            for i in range(max(len(got), len(exp))):
+                g = got[i] if i < len(got) else None
+                e = exp[i] if i < len(exp) else None
+                if g != e:
+                    # judge the line alone: a smaller case, and independent of the other lines
+                    one = (e or b"") + b"\n"
+                    r1 = tools.run([ctx.build.tool("dconv", "small"), "-S"], stdin=one, env=env, timeout=10, cap=1 << 20)
+                    if r1.out != one:
+                        shown = lines[i][1] if i < len(lines) else []
+                        tag = "context:" + ("|".join(sorted(set("%s<%s>" % (k, a) for k, b, a in shown))) or "junk")
+                        V.add(tag, {"data": one.decode("latin-1"), "kind": "ctx"}, expected=one.decode("latin-1"),
+                              actual=r1.out[:300].decode("latin-1"), weight=len(one))
+                    else:
+                        V.add("context:line-depends-on-neighbours", {"data": data.decode("latin-1"), "kind": "ctx"},
+                              expected=e and e.decode("latin-1"), actual=g and g.decode("latin-1"), weight=len(data))
+                    break
+    sub.sample({"line": "at 10:30:45. Next (2020-01-02 12:xx)", "expected": "unchanged"})
+    return sub
+
+
 def replay(ctx, subname, case):
+    if case["kind"] == "ctx":
+        data = case["data"].encode("latin-1")
+        r = tools.run([ctx.build.tool("dconv", "small"), "-S"], stdin=data, env=tools.base_env(ctx.build, "small"), timeout=30, cap=1 << 24)
+        if r.crashed or r.timed_out:
+            return r.brief()
+        return None if r.out == data else {"expected": case["data"], "actual": r.out[:400].decode("latin-1")}
     if case["kind"] == "real":
         return {"detail": "real-scale case is regenerated from the seed; re-run the check"}
     lines = [(l.encode("latin-1"), [tuple(t) for t in toks]) for l, toks in case["lines"]]
